@@ -1,12 +1,16 @@
 import Taskpool.Props.C09
 import Taskpool.Props.C13
+import Taskpool.Inv.GatherWorld
 /-! # C08 — gather_and_close waits for everything, then closes for good
 
 Step-level theorems about the stages of the call.  That an awaited gather completes only through its children's
 completion callbacks is the (modelled) semantics of `asyncio.gather`; the theorems pin down what the collecting
-gather of stage 1 needs in order to complete, and what the closing step does.  "Every task requested before the
-call has finished when it returns" as a statement over whole histories is carried by the correspondence check and
-its monitors (DESIGN §5 C08), not by a theorem. -/
+gather of stage 1 needs in order to complete, and what the closing step does.
+
+The last section is about whole histories: in every reachable world every gather's count of completed children is
+exact (each callback slot is outstanding at most once — registered on its child, queued, or in the loop's ready
+queue — or has been run), so a gather completes exactly when its last child has, and the model's defensive test
+"complete normally only if every child task has finished" never fails. -/
 namespace Taskpool
 open Pool
 
@@ -109,6 +113,58 @@ theorem C08_closed_for_good (p : Pool) (a : Nat) (num : Int) (group : Option Str
     ((p.gacAfter2 a .ok).doApply num group sp).2 = .err .poolIsClosed :=
   by rw [C09_closed_rejects_apply _ num group sp hc (C08_close_effect p a).1]
 
+/-! ### the count of a gather is exact (every history, every handle order) -/
+
+/-- **a complete count means a completed gather whose child tasks have all finished** — in every pool of every
+reachable world -/
+theorem C08_gather_count_exact (base : Nat) (h : History) (n : Nat) (p : Pool) (g : Nat) (G : Gather)
+    (hp : ((World.init base).run h).pools[n]? = some p) (hG : p.gathers[g]? = some G)
+    (hn : G.children.length ≤ G.nfinished) :
+    G.outer.isSome = true ∧ ∀ t, Child.task t ∈ G.children → TaskFin p t := by
+  have hinv := (World.ginv_run base h).inv n p hp
+  have hall := World.reachable baseC_invariant base h (fun x _ => admits_all x)
+  have hlt : n < ((World.init base).run h).cfgs.length := by rw [hall.len]; exact (List.getElem?_eq_some_iff.mp hp).1
+  obtain ⟨cap, hgood⟩ := hall.inv n ((World.init base).run h).cfgs[n] p (by simp [hlt]) hp
+  refine ⟨hinv.fin g G hG hn, ?_⟩
+  intro t ht
+  obtain ⟨j, hj, hjc⟩ := List.getElem_of_mem ht
+  obtain ⟨k, hk, hr⟩ := hinv.reg g G j t hG (by rw [List.getElem?_eq_getElem hj, hjc])
+  refine ⟨k, hk, ?_⟩
+  apply Classical.byContradiction
+  intro hnf
+  have hout : k.outcome = none := by
+    cases hko : k.outcome with
+    | none => rfl
+    | some o => exact absurd (Pool.Good.outFin hgood t k hk (by simp [hko])) hnf
+  have hpot := Pool.pot_ge_reg p t k hk hout (g, j) (hr hnf)
+  have hcnt := hinv.cnt g G hG
+  have h1 : Pool.W (((World.init base).run h).rdy n) p (g, j)
+      ≤ rsum G.children.length (fun i => Pool.W (((World.init base).run h).rdy n) p (g, i)) :=
+    rsum_ge_one G.children.length (fun i => Pool.W (((World.init base).run h).rdy n) p (g, i)) j hj
+  have hw : Pool.W (((World.init base).run h).rdy n) p (g, j) = ((World.init base).run h).rdy n (g, j) + p.pot (g, j) := rfl
+  omega
+
+/-- **the defensive test of the model never fails**: whenever the loop is about to run a gather callback handle that
+would complete the gather normally, every child task of that gather has finished — so "the outer future completes
+only when every child has" is a theorem about the machine, not an assumption built into it -/
+theorem C08_gather_completes_only_when_all_finished (base : Nat) (h : History) (k n g j : Nat) (p : Pool) (G : Gather)
+    (co : Option Outcome)
+    (hk : ((World.init base).run h).ready[k]? = some (n, .gchild g j))
+    (hp : ((World.init base).run h).pools[n]? = some p) (hG : p.gathers[g]? = some G)
+    (hv : gatherVerdict G co = some .ok) :
+    G.children.all p.childFinished = true := by
+  have hinv := (World.ginv_run base h).inv n p hp
+  have hall := World.reachable baseC_invariant base h (fun x _ => admits_all x)
+  have hlt : n < ((World.init base).run h).cfgs.length := by rw [hall.len]; exact (List.getElem?_eq_some_iff.mp hp).1
+  obtain ⟨cap, hgood⟩ := hall.inv n ((World.init base).run h).cfgs[n] p (by simp [hlt]) hp
+  have hpos : 0 < ((World.init base).run h).rdy n (g, j) := by
+    simp only [World.rdy]
+    apply List.countP_pos_iff.mpr
+    refine ⟨(n, .gchild g j), List.mem_of_getElem? hk, ?_⟩
+    simp [(isCb_gchild (g, j) g j).mpr rfl]
+  have hc := Pool.verdict_ok_count G co hv
+  exact Pool.all_childFinished p G (hinv.all_finished (Pool.Good.outFin hgood) g G hG j hpos (by omega))
+
 /-! Non-vacuity: a pool with one running task; `gather_and_close` completes only after the task has ended, then
 the pool is closed and the `until_closed()` waiter is released. -/
 def C08_demo : History :=
@@ -119,6 +175,11 @@ example : (((World.init 0).run C08_demo).pools.map fun p => (p.closed, p.apis.ma
     [(false, [none, none], [0])] := by decide +kernel
 example : (((World.init 0).run (C08_demo ++ [.on 0 [] (.gate 0 .ok), .run 0 [], .run 0 [], .run 0 [], .run 0 []])).pools.map
     fun p => (p.closed, p.apis.map (·.outcome), p.running)) = [(true, [some Outcome.ok, some Outcome.ok], [])] := by
+  decide +kernel
+
+-- both gathers (stage 1: the spawner, stage 2: the task) have one child, a complete count, and have completed normally
+example : (((World.init 0).run (C08_demo ++ [.on 0 [] (.gate 0 .ok), .run 0 [], .run 0 [], .run 0 [], .run 0 []])).pools.map
+    fun p => p.gathers.map fun G => (G.children.length, G.nfinished, G.outer)) = [[(1, 1, some Outcome.ok), (1, 1, some Outcome.ok)]] := by
   decide +kernel
 
 end Taskpool
